@@ -122,19 +122,20 @@ def uStep (p : Params) (u : Un ν) : UOp → Un ν
 def uRun (p : Params) (u : Un ν) (ops : List UOp) : Un ν := ops.foldl (uStep p) u
 
 /-- every coupon offered since the last reset: the inputs' own item lists and the raw items -/
-def offered : List UOp → List Nat
-  | [] => []
-  | .merge d _ :: t => if t.any (fun o => match o with | .reset => true | _ => false) then offered t else d.cs ++ offered t
-  | .coupon c :: t => if t.any (fun o => match o with | .reset => true | _ => false) then offered t else c :: offered t
-  | _ :: t => offered t
+def offeredStep (acc : List Nat) : UOp → List Nat
+  | .merge d _ => acc ++ d.cs
+  | .coupon c => acc ++ [c]
+  | .touch => acc
+  | .reset => []
 
-/-- min(lg_max_k, lg_k of every HLL-mode input since the last reset) -/
-def expectedLgK (p : Params) (lgMaxK : Nat) : List UOp → Nat
-  | [] => lgMaxK
-  | .merge d _ :: t =>
-    if t.any (fun o => match o with | .reset => true | _ => false) then expectedLgK p lgMaxK t
-    else if (d.build p : St Unit).mode = .hll ∧ ¬ isEmpty (d.build p : St Unit) then min d.lgK (expectedLgK p lgMaxK t)
-    else expectedLgK p lgMaxK t
-  | _ :: t => expectedLgK p lgMaxK t
+def offered (ops : List UOp) : List Nat := ops.foldl offeredStep []
+
+/-- min(lg_max_k, lg_k of every non-empty HLL-mode input since the last reset) -/
+def lgkStep (p : Params) (lgMaxK : Nat) (acc : Nat) : UOp → Nat
+  | .merge d _ => if (d.build p : St Unit).mode = .hll ∧ ¬ isEmpty (d.build p : St Unit) then min acc d.lgK else acc
+  | .reset => lgMaxK
+  | _ => acc
+
+def expectedLgK (p : Params) (lgMaxK : Nat) (ops : List UOp) : Nat := ops.foldl (lgkStep p lgMaxK) lgMaxK
 
 end DS.Hll
